@@ -137,7 +137,13 @@ pub fn gen_size(g: &mut Gen, mode: Mode, cfg: &PicCfg) -> Size {
                 }
                 4 if cfg.extreme_aspect => {
                     // long thin pictures, incl. the very top of the 16-bit size range
-                    let long = if g.chance(1, 3) { g.range(65500, 65535) } else { g.range(300, 2000) } as u16;
+                    // ... and the neighbourhoods of 2^15, 2^14, 2^13, 2^12 (sign bits of narrower integers)
+                    let long = match g.weighted(&[4, 2, 2, 4]) {
+                        0 => g.range(65500, 65535),
+                        1 => g.range(32700, 32850),
+                        2 => *g.pick(&[4096i64, 8192, 16384]) + g.range_around(-40, 40, 0),
+                        _ => g.range(300, 2000),
+                    } as u16;
                     if g.bool() {
                         Size::Custom16(long, g.range(1, 5) as u16)
                     } else {
@@ -243,6 +249,16 @@ pub fn gen_header(g: &mut Gen, mode: Mode, version: u8, size: Size, ptype: PicTy
     if g.chance(1, 8) {
         let n = g.range(1, 3) as usize;
         h.pei = g.bytes(n);
+    } else if g.chance(1, 120) {
+        // a long chain of extra-information bytes (hundreds): content derived from one tape word
+        let n = g.range(200, 700) as usize;
+        let mut x = g.word() | 1;
+        h.pei = (0..n)
+            .map(|_| {
+                x = x.wrapping_mul(1_664_525).wrapping_add(1_013_904_223);
+                (x >> 24) as u8
+            })
+            .collect();
     }
     if mode == Mode::Standard && ptype == PicType::I {
         // an optional mode that means nothing for an intra picture, switched on in its header
@@ -322,10 +338,15 @@ pub enum Shape {
     /// every position from the first available one to 63 carries an event (run 0 throughout):
     /// 64 events in an inter block, 63 in an intra block
     Full,
+    /// two rows (or two columns) of strong coefficients that nearly cancel in the second pass of
+    /// the transform: row v=0 / v=4 (columns u=0 / u=4) carry the same large levels except for small
+    /// deviations, so the intermediate values are huge while half of the output lines are small
+    Cancelling,
 }
 
 pub fn gen_shape(g: &mut Gen) -> Shape {
-    match g.weighted(&[12, 6, 4, 4, 4, 6, 1]) {
+    match g.weighted(&[12, 6, 4, 4, 4, 6, 1, 1]) {
+        7 => Shape::Cancelling,
         6 => Shape::Full,
         0 => Shape::Empty,
         1 => Shape::Single,
@@ -336,11 +357,64 @@ pub fn gen_shape(g: &mut Gen) -> Shape {
     }
 }
 
+/// Zig-zag index of coefficient (u, v) (u horizontal frequency).
+fn zz_index(u: usize, v: usize) -> usize {
+    const ZZ: [[usize; 8]; 8] = [
+        [0, 1, 5, 6, 14, 15, 27, 28],
+        [2, 4, 7, 13, 16, 26, 29, 42],
+        [3, 8, 12, 17, 25, 30, 41, 43],
+        [9, 11, 18, 24, 31, 40, 44, 53],
+        [10, 19, 23, 32, 39, 45, 52, 54],
+        [20, 22, 33, 38, 46, 51, 55, 60],
+        [21, 34, 37, 47, 50, 56, 59, 61],
+        [35, 36, 48, 49, 57, 58, 62, 63],
+    ];
+    ZZ[v][u]
+}
+
+/// See `Shape::Cancelling`.
+fn gen_cancelling_events(g: &mut Gen, hdr: &Header, first: usize) -> Vec<Event> {
+    let v1 = hdr.is_v1();
+    let max_level: i16 = if v1 { 1023 } else { 127 };
+    // a level whose reconstruction is large but (usually) not saturated
+    let q = hdr.quant.max(1) as i32;
+    let top = ((2047 / q - 1) / 2).clamp(1, max_level as i32) as i16;
+    let rows = g.bool(); // two rows, or two columns
+    let n = g.range(3, 8) as usize;
+    let mut levels: Vec<(usize, usize, i16)> = Vec::new(); // (u, v, level)
+    for k in 0..n {
+        let big = (top - g.range(0, (top as i64 / 8).max(1)) as i16).max(1);
+        let sign = if g.bool() { 1 } else { -1 };
+        let small = g.range_around(-3, 3, 0) as i16;
+        let flip = if g.bool() { 1 } else { -1 };
+        let (a, b) = if rows { ((k, 0usize), (k, 4usize)) } else { ((0usize, k), (4usize, k)) };
+        levels.push((a.0, a.1, sign * big));
+        let other = (flip * sign * (big + small)).clamp(-max_level, max_level);
+        if other != 0 {
+            levels.push((b.0, b.1, other));
+        }
+    }
+    let mut at: Vec<(usize, i16)> = levels.iter().map(|(u, v, l)| (zz_index(*u, *v), *l)).filter(|(p, _)| *p >= first).collect();
+    at.sort();
+    let mut evs = Vec::new();
+    let mut prev = first;
+    for (p, level) in at {
+        let wide = v1 && (level.abs() > 63 || g.chance(1, 3));
+        evs.push(Event { run: (p - prev) as u8, level, force_escape: false, wide });
+        prev = p + 1;
+    }
+    evs
+}
+
 /// Generate the events of one block. `first` is the first zig-zag index available to events
 /// (1 for intra blocks, whose index 0 is INTRADC; 0 for inter blocks).
 pub fn gen_events(g: &mut Gen, hdr: &Header, first: usize, shape: Shape) -> Vec<Event> {
+    if shape == Shape::Cancelling {
+        return gen_cancelling_events(g, hdr, first);
+    }
     let mut positions: Vec<usize> = Vec::new();
     match shape {
+        Shape::Cancelling => {}
         Shape::Empty => {}
         Shape::Single => positions.push(g.range(first as i64, 63) as usize),
         Shape::Row | Shape::Col => {
@@ -550,6 +624,25 @@ fn maybe_stuffing(g: &mut Gen) -> u8 {
     }
 }
 
+/// Pictures of many macroblocks cannot pay for their content out of the case's tape (a few thousand
+/// words): beyond this many macroblocks the content comes from a *derived* tape - pseudo-random
+/// words expanded from one word of the case's tape - read by the same macroblock generators, so
+/// that the far columns and rows of very wide / tall pictures carry real content (coefficients,
+/// vectors, every macroblock type) too.
+const DERIVED_CONTENT_ABOVE: usize = 600;
+
+fn derived_tape(seed: u32, words: usize) -> Vec<u32> {
+    let mut x = (seed as u64) << 17 | 0x9E37_79B9;
+    (0..words)
+        .map(|_| {
+            x ^= x << 13;
+            x ^= x >> 7;
+            x ^= x << 17;
+            (x >> 16) as u32
+        })
+        .collect()
+}
+
 pub fn gen_intra_pic_with(g: &mut Gen, cfg: &PicCfg, mode: Mode, version: u8, size: Size) -> Pic {
     let hdr = gen_header(g, mode, version, size, PicType::I);
     g.block_pool.clear();
@@ -558,11 +651,22 @@ pub fn gen_intra_pic_with(g: &mut Gen, cfg: &PicCfg, mode: Mode, version: u8, si
     let total = mbw * mbh;
     let odds = detail_odds(total, cfg);
     let mut mbs = Vec::with_capacity(total);
-    for _ in 0..total {
-        let detailed = odds >= 16 || g.chance(odds, 16);
-        let mut mb = gen_intra_mb(g, &hdr, detailed, true);
-        mb.stuffing = maybe_stuffing(g);
-        mbs.push(mb);
+    if total > DERIVED_CONTENT_ABOVE {
+        let tape = derived_tape(g.word(), total * 12 + 64);
+        let mut sg = Gen::new(&tape);
+        for _ in 0..total {
+            let detailed = sg.chance(1, 24);
+            let mut mb = gen_intra_mb(&mut sg, &hdr, detailed, true);
+            mb.stuffing = maybe_stuffing(&mut sg);
+            mbs.push(mb);
+        }
+    } else {
+        for _ in 0..total {
+            let detailed = odds >= 16 || g.chance(odds, 16);
+            let mut mb = gen_intra_mb(g, &hdr, detailed, true);
+            mb.stuffing = maybe_stuffing(g);
+            mbs.push(mb);
+        }
     }
     // Own-reader pictures are padded to the byte boundary by the serialiser (0..=7 zero bits,
     // i.e. "fewer than eight"); explicit extra padding is only used by the stream generators.
@@ -649,11 +753,22 @@ pub fn gen_inter_pic(g: &mut Gen, cfg: &PicCfg, like: &Header, ptype: PicType, a
     let odds = detail_odds(total, cfg);
     let n = if allow_truncation && g.chance(1, 6) { g.range(0, total as i64 - 1) as usize } else { total };
     let mut mbs = Vec::with_capacity(n);
-    for _ in 0..n {
-        let detailed = odds >= 16 || g.chance(odds, 16);
-        let mut mb = gen_inter_mb(g, &hdr, detailed);
-        mb.stuffing = maybe_stuffing(g);
-        mbs.push(mb);
+    if total > DERIVED_CONTENT_ABOVE {
+        let tape = derived_tape(g.word(), n * 12 + 64);
+        let mut sg = Gen::new(&tape);
+        for _ in 0..n {
+            let detailed = sg.chance(1, 24);
+            let mut mb = gen_inter_mb(&mut sg, &hdr, detailed);
+            mb.stuffing = maybe_stuffing(&mut sg);
+            mbs.push(mb);
+        }
+    } else {
+        for _ in 0..n {
+            let detailed = odds >= 16 || g.chance(odds, 16);
+            let mut mb = gen_inter_mb(g, &hdr, detailed);
+            mb.stuffing = maybe_stuffing(g);
+            mbs.push(mb);
+        }
     }
     // Own-reader pictures are padded to the byte boundary by the serialiser (0..=7 zero bits,
     // i.e. "fewer than eight"); explicit extra padding is only used by the stream generators.
